@@ -291,4 +291,62 @@ theorem gmPairStep_yield (env : NeoEnv) (row : Row) (s : H) (r : ForInStep H) (h
     · exact gmPairMain_yield h
     · exact gmPairMain_yield h
 
+/-! ### C3: the rows of the second query -/
+
+theorem flatMap_congr' {α β : Type} {l : List α} {f g : α → List β} (h : ∀ x ∈ l, f x = g x) :
+    l.flatMap f = l.flatMap g := by
+  induction l with
+  | nil => rfl
+  | cons x xs ih =>
+    rw [List.flatMap_cons, List.flatMap_cons, h x (List.mem_cons_self ..),
+      ih (fun y hy => h y (List.mem_cons_of_mem _ hy))]
+
+theorem queryPairs_eq (db : Db) (hdb : DbWF db) (hr : RelsWF db) : queryPairs db = (pairsOfDb db).map (pairRow db) := by
+  unfold queryPairs pairsOfDb
+  rw [List.map_flatMap]
+  apply flatMap_congr'
+  intro r1 hr1
+  have hlt := (hr r1 hr1).1
+  have hty : hasProp (db.nodes[r1.src]?.getD default) "type" = true := by
+    rw [List.getElem?_eq_getElem hlt, Option.getD_some]
+    exact (hdb _ (List.getElem_mem hlt)).type
+  rw [hty, List.map_map]
+  simp only [Bool.and_true]
+  rfl
+
+theorem absRel_inj {r1 r2 : DbRel} (h : absRel r1 = absRel r2) : r1 = r2 := by
+  cases r1; cases r2
+  unfold absRel at h
+  simp only [Neo.DbRel.mk.injEq] at h
+  obtain ⟨h1, h2, h3⟩ := h
+  subst h1; subst h2; subst h3; rfl
+
+theorem neoQueryPairs_eq (db : Db) :
+    Neo.queryPairs (absDb db) = (pairsOfDb db).map (fun p => (p.1.src, p.1.type, p.2.type, p.1.dst)) := by
+  unfold Neo.queryPairs pairsOfDb absDb
+  simp only []
+  rw [List.map_flatMap, List.flatMap_map]
+  apply flatMap_congr'
+  intro r1 _
+  rw [List.filter_map, List.map_map, List.map_map]
+  have hp : ((fun r2 : Neo.DbRel => decide (r2.src = (absRel r1).dst) && decide (r2.dst = (absRel r1).src) &&
+        decide (r2 ≠ absRel r1)) ∘ absRel) =
+      (fun r2 : DbRel => decide (r2.src = r1.dst) && decide (r2.dst = r1.src) && decide (r2 ≠ r1)) := by
+    funext r2
+    have e : decide (absRel r2 ≠ absRel r1) = decide (r2 ≠ r1) := by
+      apply decide_eq_decide.2
+      exact ⟨fun h e => h (congrArg absRel e), fun h e => h (absRel_inj e)⟩
+    show (decide (r2.src = r1.dst) && decide (r2.dst = r1.src) && decide (absRel r2 ≠ absRel r1)) = _
+    rw [e]
+  rw [hp]
+  rfl
+
+theorem pairsOfDb_wf (db : Db) (hr : RelsWF db) : ∀ p ∈ pairsOfDb db, p.1 ∈ db.rels ∧ p.2 ∈ db.rels := by
+  intro p hp
+  have _ := hr
+  unfold pairsOfDb at hp
+  obtain ⟨r1, hr1, hp⟩ := List.mem_flatMap.1 hp
+  obtain ⟨r2, hr2, rfl⟩ := List.mem_map.1 hp
+  exact ⟨hr1, (List.mem_filter.1 hr2).1⟩
+
 end MalVerif.PyN.TieGet
